@@ -83,6 +83,13 @@ theorem length_setCells (F V : List Cell) (c0 c1 : Nat) (h01 : c0 ≤ c1) (hV : 
   simp only []
   grind
 
+/-- Sharper: a fitting value never makes the row longer than `max (old length) (c0 + value length)` - whatever `c1`. -/
+theorem length_setCells' (F V : List Cell) (c0 c1 : Nat) (h01 : c0 ≤ c1) (hV : V.length ≤ c1 - c0) :
+    (setCells F V c0 c1).length ≤ max F.length (c0 + V.length) := by
+  unfold setCells
+  simp only []
+  grind
+
 theorem cells_spaces_radd (v : FmtStr) (n : Nat) :
     cells (raddStr v (spaces n)) = List.replicate n blankCell ++ cells v := by
   simp [raddStr, spaces, Chunk.cells, blankCell]
@@ -240,14 +247,14 @@ theorem setsliceOp_len_le (md : Nat) (f : FmtStr) (v : Operand) (c0 c1 W : Nat) 
       · have := Except.ok.inj h
         rw [← this]; omega
 
-theorem setsliceOp_ok (md : Nat) (f : FmtStr) (v : Operand) (c0 c1 W : Nat) (h01 : c0 ≤ c1) (h1W : c1 ≤ W)
+theorem setsliceOp_ok (md : Nat) (f : FmtStr) (v : Operand) (c0 c1 W : Nat) (h01 : c0 ≤ c1) (hcW : c0 + v.rawLen ≤ W)
     (hf : len f ≤ W) (hv : v.rawLen ≤ c1 - c0) (hne : NoEsc v) :
     ∃ r, setsliceOp md f c0 c1 v W = .ok r ∧ cells r = setCells (cells f) v.cells c0 c1 := by
   rcases setsliceOp_eq md f v c0 c1 W h01 hne with ⟨_, h, _⟩ | ⟨_, r, hc, he⟩
   · omega
   · refine ⟨r, ?_, hc⟩
-    have := length_setCells (cells f) v.cells c0 c1 h01 (by rw [cells_rawLen]; exact hv)
-    rw [← hc, cells_length, cells_length] at this
+    have := length_setCells' (cells f) v.cells c0 c1 h01 (by rw [cells_rawLen]; exact hv)
+    rw [← hc, cells_length, cells_length, cells_rawLen] at this
     rw [he, if_neg (by omega)]
 
 theorem setsliceOp_reject (md : Nat) (f : FmtStr) (v : Operand) (c0 c1 W : Nat) (h01 : c0 ≤ c1)
@@ -320,7 +327,8 @@ theorem setRows_length (md c0 c1 W : Nat) (rows : List FmtStr) (vals : List Oper
           cases Except.ok.inj h
           simp only [List.length_cons, ih vals rest h2]; omega
 
-theorem setRows_ok (md c0 c1 W : Nat) (h01 : c0 ≤ c1) (h1W : c1 ≤ W) (rows : List FmtStr) (vals : List Operand)
+theorem setRows_ok (md c0 c1 W : Nat) (h01 : c0 ≤ c1) (rows : List FmtStr) (vals : List Operand)
+    (hvW : ∀ v ∈ vals, c0 + v.rawLen ≤ W)
     (hr : ∀ f ∈ rows, len f ≤ W) (hv : ∀ v ∈ vals, v.rawLen ≤ c1 - c0) (hne : ∀ v ∈ vals, NoEsc v)
     (hl : rows.length = vals.length) :
     ∃ new, setRows md c0 c1 W rows vals = .ok new ∧ new.length = rows.length ∧
@@ -332,8 +340,10 @@ theorem setRows_ok (md c0 c1 W : Nat) (h01 : c0 ≤ c1) (h1W : c1 ≤ W) (rows :
     cases vals with
     | nil => simp at hl
     | cons v vals =>
-      obtain ⟨r, hr1, hr2⟩ := setsliceOp_ok md f v c0 c1 W h01 h1W (hr f (by simp)) (hv v (by simp)) (hne v (by simp))
-      obtain ⟨rest, h1, h2, h3⟩ := ih vals (fun f hf => hr f (by simp [hf])) (fun v h => hv v (by simp [h]))
+      obtain ⟨r, hr1, hr2⟩ := setsliceOp_ok md f v c0 c1 W h01 (hvW v (by simp)) (hr f (by simp)) (hv v (by simp))
+        (hne v (by simp))
+      obtain ⟨rest, h1, h2, h3⟩ := ih vals (fun v h => hvW v (by simp [h])) (fun f hf => hr f (by simp [hf]))
+        (fun v h => hv v (by simp [h]))
         (fun v h => hne v (by simp [h])) (by simpa using hl)
       refine ⟨r :: rest, by unfold setRows; rw [hr1, h1], by simp [h2], ?_⟩
       intro i f' v' hf' hv'
